@@ -375,6 +375,28 @@ int main(int argc, char ** argv) {
                 else throw std::logic_error("unknown dyna op " + op);
                 dumpTable(o, d.getQFunction());
             }
+        } else if (kind == "dqstar") {
+            // round 6: both tables set to Q* through setQFunction, then ONE stepUpdateQ per successor state with
+            // the model's reward; the table is reset before every probe, the generator keeps running (coins vary)
+            size_t S = c.nextSize(), A = c.nextSize();
+            double alpha = c.nextDouble(), gamma = c.nextDouble();
+            for (size_t i = 0; i < A * S * S; ++i) c.nextDouble();          // transition rows (driver only)
+            MDP::QFunction q(S, A), rw(S, A);
+            for (size_t s = 0; s < S; ++s) for (size_t a = 0; a < A; ++a) q(s, a) = c.nextDouble();
+            for (size_t s = 0; s < S; ++s) for (size_t a = 0; a < A; ++a) rw(s, a) = c.nextDouble();
+            DoubleQLearning dq(S, A, gamma, alpha);
+            size_t np = c.nextSize();
+            for (size_t i = 0; i < np; ++i) {
+                size_t s = c.nextSize(), a = c.nextSize();
+                for (size_t s1 = 0; s1 < S; ++s1) {
+                    dq.setQFunction(q);
+                    auto rcopy = dq.rand_; auto dcopy = dq.dist_;
+                    bool coin = dcopy(rcopy);
+                    dq.stepUpdateQ(s, a, s1, rw(s, a));
+                    o << coin;
+                    dumpTable(o, dq.getQFunctionA()); dumpTable(o, dq.getQFunction()); dumpTable(o, dq.getQFunctionB());
+                }
+            }
         } else throw std::logic_error("unknown case kind " + kind);
     });
 }
